@@ -58,9 +58,10 @@ class ToeplitzLinearOperator(LinearOperator):
 
         res = sym_toeplitz_derivative_quadratic_form(left_vecs, right_vecs)
 
-        # Collapse any expanded broadcast dimensions
-        if res.dim() > self.column.dim():
-            res = res.view(-1, *self.column.shape).sum(0)
+        # Collapse any expanded broadcast dimensions (extra leading dimensions of the vectors, and the size-1
+        # batch dimensions of the column along which the vectors are larger)
+        if res.shape != self.column.shape:
+            res = res.sum_to_size(self.column.shape)
 
         return (res,)
 
